@@ -53,7 +53,10 @@ def record(plt):
             for x_, y_ in zip(ln.get_xdata(), ln.get_ydata()):
                 markers.append((float(x_), float(y_)))
     bars = [(float(r.get_x() + r.get_width() / 2.0), float(r.get_height())) for r in ax.patches if isinstance(r, Rectangle)]
-    return {"markers": markers, "labels": [t.get_text() for t in ax.texts], "title": ax.get_title(),
+    curves = [{"x": [float(v) for v in ln.get_xdata()], "y": [float(v) for v in ln.get_ydata()], "label": str(ln.get_label()), "color": str(ln.get_color())}
+              for ln in ax.lines if ln.get_linestyle() not in ("None", "", " ")]
+    return {"curves": curves, "title_left": ax.get_title(loc="left"),
+            "markers": markers, "labels": [t.get_text() for t in ax.texts], "title": ax.get_title(),
             "xlim": tuple(float(v) for v in ax.get_xlim()), "ylim": tuple(float(v) for v in ax.get_ylim()),
             "polys": polygons(ax), "bars": bars}
 
@@ -157,6 +160,58 @@ def bars_event(ctx, plt, workdir, name, fn, seq, stat, w, save):
     bars = rec["bars"] if rec else []
     return {"q": "bars", "entry": name, "seq": list(seq), "stat": stat, "w": w, "exc": out[0] != "ok" or rec is None,
             "xs": [common.fx(b[0]) for b in bars], "heights": [common.fx(b[1]) for b in bars], "error": repr(out[1:3]) if out[0] != "ok" else ""}
+
+
+def cbars_event(ctx, plt, workdir, name, fn, o, seq, ctype, w, st, save, getfig):
+    """A complexity plot against the complexity profile the same object returns for the same arguments."""
+    prof = common.call(lambda: o.get_linear_complexity(complexityType=ctype, blobLen=w, stepSize=st), limit=120)
+    fresh_canvas(plt)
+    before = set(glob.glob(os.path.join(workdir, "*")))
+    with SaveSpy(plt) as spy:
+        out = common.call(fn, limit=120)
+    ctx.evaluations += 1
+    rec = spy.rec if save else (record(plt) if out[0] == "ok" else None)
+    new = [f for f in glob.glob(os.path.join(workdir, "*")) if f not in before]
+    fileok = bool(new) and all(os.path.getsize(f) > 0 for f in new)
+    for f in new:
+        os.remove(f)
+    if save:
+        STATE["after_save"] = out[0] == "ok"
+    else:
+        plt.close("all")
+    bars = rec["bars"] if rec else []
+    okp = prof[0] == "ok"
+    zero = [common.fx(0), common.fx(0)]
+    return {"q": "cbars", "entry": name, "seq": list(seq), "ctype": ctype, "w": w, "s": st, "exc": out[0] != "ok" or rec is None or not okp,
+            "getfig": bool(getfig), "returned": out[0] == "ok" and out[1] is not None, "saved": bool(save), "fileok": fileok,
+            "pos": [common.fx(v) for v in prof[1][0]] if okp else [], "prof": [common.fx(v) for v in prof[1][1]] if okp else [],
+            "xs": [common.fx(b[0]) for b in bars], "heights": [common.fx(b[1]) for b in bars], "title": rec["title"] if rec else "",
+            "xlim": [common.fx(v) for v in rec["xlim"]] if rec else zero, "ylim": [common.fx(v) for v in rec["ylim"]] if rec else zero,
+            "error": repr(out[1:3]) if out[0] != "ok" else (repr(prof[1:3]) if not okp else "")}
+
+
+COMP_COLORS = ['red', 'blue', 'brown', 'green', 'black', 'orange', 'purple']
+COMP_NAMES = ['E/D.', 'R/K', 'E/D/R/K', 'Q/N/S/T/G/H/C', 'I/L/V/M/A', 'F/Y/W.', 'P']
+
+
+def lines_event(ctx, plt, workdir, name, fn, seq, w, plotdata, title):
+    fresh_canvas(plt)
+    before = set(glob.glob(os.path.join(workdir, "*")))
+    with SaveSpy(plt) as spy:
+        out = common.call(fn, limit=120)
+    ctx.evaluations += 1
+    rec = spy.rec
+    new = [f for f in glob.glob(os.path.join(workdir, "*")) if f not in before]
+    fileok = bool(new) and all(os.path.getsize(f) > 0 for f in new)
+    for f in new:
+        os.remove(f)
+    STATE["after_save"] = out[0] == "ok"
+    zero = [common.fx(0), common.fx(0)]
+    return {"q": "lines", "entry": name, "seq": list(seq), "w": w, "plotdata": bool(plotdata), "wanttitle": title, "exc": out[0] != "ok" or rec is None,
+            "fileok": fileok, "wantnames": COMP_NAMES, "wantcolors": COMP_COLORS, "title": rec["title_left"] if rec else "",
+            "lines": [{"x": [common.fx(v) for v in c["x"]], "y": [common.fx(v) for v in c["y"]], "label": c["label"], "color": c["color"]} for c in rec["curves"]] if rec else [],
+            "xlim": [common.fx(v) for v in rec["xlim"]] if rec else zero, "ylim": [common.fx(v) for v in rec["ylim"]] if rec else zero,
+            "error": repr(out[1:3]) if out[0] != "ok" else ""}
 
 
 def scaled_polys(polys):
@@ -291,6 +346,23 @@ def run(ctx):
             ev.append(bars_event(ctx, plt, workdir, "SP.show_" + nm, lambda: getattr(o, "show_" + nm)(w, True), s, stat, w, False))
             if rng.random() < 0.4:
                 ev.append(bars_event(ctx, plt, workdir, "SP.save_" + nm, lambda: getattr(o, "save_" + nm)(fn, w), s, stat, w, True))
+        # complexity plots: one bar per window of the complexity profile; the composition plot: one curve per standard group
+        if 12 <= len(s) <= 300:
+            for ctype in ("WF", "LC", "LZW"):
+                cw = rng.randint(4, min(len(s), 14))
+                cs = rng.choice([1, 1, 1, 2, 3, 5])
+                gfc = rng.choice([True, True, 1, False])
+                if rng.random() < 0.5:
+                    ev.append(cbars_event(ctx, plt, workdir, "SP.show_linearComplexity", lambda: o.show_linearComplexity(ctype, 20, {}, cw, cs, 3, gfc) if gfc else o.show_linearComplexity(complexityType=ctype, blobLen=cw, stepSize=cs),
+                                          o, s, ctype, cw, cs, False, gfc))
+                else:
+                    ev.append(cbars_event(ctx, plt, workdir, "SP.save_linearComplexity", lambda: o.save_linearComplexity(fn, ctype, blobLen=cw, stepSize=cs),
+                                          o, s, ctype, cw, cs, True, False))
+            if len(s) <= 120 and i % 2 == 0:
+                pdata = rng.random() < 0.7
+                ctitle = rng.choice(["", title, "composition of " + s[:6]])
+                lw_ = rng.randint(2, min(len(s), 9))
+                ev.append(lines_event(ctx, plt, workdir, "SP.save_linearComposition", lambda: o.save_linearComposition(fn, lw_, title=ctitle, plot_data=pdata), s, lw_, pdata, ctitle))
         for e in ev:
             ctx.nontrivial.add((e["entry"], s, e.get("w"), e.get("wanttitle")))
         trs.append({"tid": i + 1, "ev": ev})
